@@ -184,3 +184,78 @@ class ParameterValueSet(Contract):
 
 
 CONTRACTS = [PoolEnforce, ParameterValueSet]
+
+
+class ObjectDataRule(Contract):
+    """RequiredObjectDataEnforcer.rule: true exactly when every (object, data) pair of the
+    validations has its data among the children of *its own* object."""
+    target = "geoh5py/ui_json/enforcers.py::RequiredObjectDataEnforcer.rule"
+    props = ("C15",)
+    bounded_scope = "1-3 (object, data) pairs, each object with 0-2 children; identifiers symbolic (exhaustive over these shapes)"
+
+    def cases(self):
+        import itertools
+
+        return [c for n in (1, 2, 3) for c in itertools.product((0, 1, 2), repeat=n)]
+
+    def setup(self, ctx):
+        from geoh5py.ui_json.enforcers import RequiredObjectDataEnforcer
+        from pyvc.values import PDict, PList
+
+        value = PDict()
+        pairs, spec = [], []
+        for i, nkids in enumerate(ctx.case):
+            kids = [AbsObj(f"child{i}_{j}", {"uid": sym(f"kid{i}_{j}", "uid")}) for j in range(nkids)]
+            parent = AbsObj(f"object{i}", {"children": PList(kids)})
+            data = AbsObj(f"data{i}", {"uid": sym(f"data{i}", "uid")})
+            value.items[f"obj{i}"] = PDict({"value": parent})
+            value.items[f"dat{i}"] = PDict({"value": data})
+            pairs.append((f"obj{i}", f"dat{i}"))
+            spec.append((data.attrs["uid"], [k.attrs["uid"] for k in kids]))
+        me = Obj(RequiredObjectDataEnforcer, {"_validations": PList(pairs), "validations": PList(pairs)})
+        ctx.env.update(spec=spec)
+        return [me, value], {}
+
+    def post(self, ctx, result):
+        want = z3.And(*[z3.Or(*[d.e == k.e for k in kids]) if kids else z3.BoolVal(False) for d, kids in ctx.env["spec"]])
+        ctx.oblige("true-iff-every-data-is-a-child-of-its-own-object", zbool(ctx.I.truth(result)) == want,
+                   note="a data that belongs to another form's object is accepted (or a rightful one refused)")
+
+
+CONTRACTS = CONTRACTS + [ObjectDataRule]
+
+
+class UiJsonAssigned(Contract):
+    """Statelessness of InputFile validation across forms: assigning a ui.json (or None) drops the
+    validators built for the previous form, so the next verdict is computed from the new rule table."""
+    target = "geoh5py/ui_json/input_file.py::InputFile.ui_json.fset"
+    props = ("C15",)
+    lenient = True
+
+    def cases(self):
+        return ["new-form", "cleared"]
+
+    def setup(self, ctx):
+        from geoh5py.ui_json.input_file import InputFile
+        from pyvc.values import Opaque, PDict
+
+        me = Opaque("self", cls=InputFile)
+        me.attrs["_validators"] = Opaque("validators-of-the-previous-form")
+        me.attrs["_validations"] = None
+        me.attrs["_ui_json"] = Opaque("previous-form")
+        nm = Opaque("numify")
+        nm.maybe_method = lambda I, a, kw: a[0]
+        me.attrs["numify"] = nm
+        value = PDict({"title": "t"}) if ctx.case == "new-form" else None
+        ctx.env.update(me=me)
+        return [me, value], {}
+
+    def post(self, ctx, result):
+        me = ctx.env["me"]
+        ctx.oblige("validators-of-the-previous-form-are-dropped", me.attrs.get("_validators", "unset") is None,
+                   note="values of the new form would be judged with the previous form's rules")
+        if ctx.case == "cleared":
+            ctx.oblige("no-form-no-rules", me.attrs.get("_ui_json", "unset") is None and me.attrs.get("_validations", "unset") is None)
+
+
+CONTRACTS = CONTRACTS + [UiJsonAssigned]
